@@ -79,6 +79,7 @@ def walk(e):
 
 def run(R):
     R.build()
+    R.prove('Props/C11.v')
     R.level = 'translation_validation'
     rnd = random.Random(R.seed)
     sys.path.insert(0, core.REPO)
